@@ -14,5 +14,7 @@ CONSTANTS
   Step = 3
   RbfDepth = 4
   TightCap = TRUE
+  PeerDepth = 4
+  PeerWide = FALSE
 INVARIANTS Synced Bounded BoundedDefault BothSigned Agree NoStall NoAbort Between TxInvariants
 CHECK_DEADLOCK FALSE
